@@ -126,18 +126,49 @@ pub fn verif_diff_trim_start_matches<'a>(s: &'a str, p: &str) -> (r: &'a str)
     ensures r@ == trim_start_matches_spec(s@, p@),
 { s.trim_start_matches(p) }
 
-/// exactly one leading "b/" removed (property C15)
-pub open spec fn strip_once(s: Seq<char>) -> Seq<char> {
-    match diff_strip_prefix_spec(s, "b/"@) { Some(r) => r, None => s }
+/// exactly one leading "b/" removed (property C15) -- on the path's bytes (`b` = 0x62, `/` = 0x2f)
+pub open spec fn strip_once_bytes(b: Seq<u8>) -> Seq<u8> {
+    if b.len() >= 2 && b[0] == 0x62u8 && b[1] == 0x2fu8 { b.skip(2) } else { b }
 }
 
+/// `<[u8]>::strip_prefix(b"b/")` (std: "Returns a subslice with the prefix removed ... If the slice does not
+/// start with prefix, returns None")
+pub open spec fn bytes_strip_b_slash(b: Seq<u8>) -> Option<Seq<u8>> {
+    if b.len() >= 2 && b[0] == 0x62u8 && b[1] == 0x2fu8 { Some(b.skip(2)) } else { None }
+}
+
+pub open spec fn diff_opt_bytes_view(o: Option<&[u8]>) -> Option<Seq<u8>> {
+    match o { Some(x) => Some(x@), None => None }
+}
+
+#[verifier::external_body]
+pub fn verif_bytes_strip_b_slash<'a>(s: &'a Vec<u8>) -> (r: Option<&'a [u8]>)
+    ensures diff_opt_bytes_view(r) == bytes_strip_b_slash(s@),
+{ s.strip_prefix(b"b/") }
+
+/// `Option<&[u8]>::unwrap_or(&vec)` (the `&Vec<u8>` argument coerces to a slice)
+#[verifier::external_body]
+pub fn verif_bytes_unwrap_or<'a>(o: Option<&'a [u8]>, d: &'a Vec<u8>) -> (r: &'a [u8])
+    ensures r@ == (match o { Some(x) => x@, None => d@ }),
+{ o.unwrap_or(d) }
+
+/// the path that consists of exactly these bytes (`OsStr::from_bytes` on Unix). Uninterpreted.
+pub uninterp spec fn path_of_bytes(b: Seq<u8>) -> std::path::PathBuf;
+
+/// `path_from_bytes` of src/diff_parser.rs: two std calls (`OsStr::from_bytes`, `PathBuf::from`) under
+/// `#[cfg(unix)]` -- T-std: the path IS the bytes. (The non-Unix variant converts lossily; not modelled.)
+#[verifier::external_body]
+pub fn path_from_bytes(bytes: &[u8]) -> (r: std::path::PathBuf)
+    ensures r == path_of_bytes(bytes@),
+{ unimplemented!() }
+
 pub open spec fn da_key(f: PatchedFile) -> std::path::PathBuf {
-    path_of(strip_once(unquote_spec(f.target_file@)))
+    path_of_bytes(strip_once_bytes(unquote_bytes_spec(f.target_file@)))
 }
 
 /// the key the pre-90ac6cb code used: the target as written in the diff, quotes and escapes included
 pub open spec fn da_key_raw(f: PatchedFile) -> std::path::PathBuf {
-    path_of(strip_once(f.target_file@))
+    path_of_bytes(strip_once_bytes(utf8_bytes(f.target_file@)))
 }
 
 /// the file is deleted by the diff: git (and every unified diff) names its target `/dev/null`
